@@ -1296,7 +1296,7 @@ func (m *repoManager) getBranchVersion(uuid dvid.UUID, name string) (dvid.UUID, 
 		if err != nil {
 			return dvid.NilUUID, 0, fmt.Errorf("can't parse parent %q in branch %q", splits[1], name)
 		}
-		if parent >= len(uuidAncestry) {
+		if parent < 0 || parent >= len(uuidAncestry) {
 			return dvid.NilUUID, 0, fmt.Errorf("parent %d is out of range for branch %q", parent, name)
 		}
 		branchUUID = uuidAncestry[parent]
